@@ -340,6 +340,10 @@ func (d *dut) checkAll(frac int, ctx string) {
 			nr, nerr = d.db.HistoricNodeReader(st.Root)
 		}
 		where := fmt.Sprintf("%s: canonical id %d (histories %d..%d, disk %d, head %d)", ctx, i, first, last, disk, len(d.chain)-1)
+		if tf, tl, tok, terr := d.db.VerifTrienodeHistoryWindow(); tok {
+			sf, sl, _ := d.db.VerifStateHistoryWindow()
+			where += fmt.Sprintf(" [DIAG state ids %d..%d trienode ids %d..%d err=%v]", sf, sl, tf, tl, terr)
+		}
 		switch {
 		case retained:
 			if serr != nil {
